@@ -447,6 +447,21 @@ pub fn pwhash_str_verify(encoded: &str, pw: &[u8]) -> bool {
     unsafe { ffi::crypto_pwhash_str_verify(z.as_ptr(), pw.as_ptr() as *const libc::c_char, ull(pw.len())) == 0 }
 }
 
+/// libsodium's crypto_pwhash_str_needs_rehash: Some(false) = the string carries exactly these limits, Some(true) = other
+/// limits, None = not a string libsodium can decode (or limits out of range).  Parses only; nothing is hashed.
+pub fn pwhash_str_needs_rehash(encoded: &str, ops: u64, mem: usize) -> Option<bool> {
+    let mut z: Vec<libc::c_char> = encoded.bytes().map(|b| b as libc::c_char).collect();
+    z.push(0);
+    while z.len() < 128 {
+        z.push(0);
+    }
+    match unsafe { ffi::crypto_pwhash_str_needs_rehash(z.as_ptr(), ops as libc::c_ulonglong, mem) } {
+        0 => Some(false),
+        1 => Some(true),
+        _ => None,
+    }
+}
+
 // ----------------------------------------------------------------- kdf ----
 
 pub fn kdf_derive(len: usize, id: u64, ctx: &[u8; 8], key: &[u8; 32]) -> Option<Vec<u8>> {
